@@ -713,7 +713,7 @@ fn check_t2(scn: &Scenario, stats: &mut Stats) -> Vec<Violation> {
     }
     let run = |flags: &[&str], plan: &[String], sbx: &t2::Sandbox, base: &str, e: u64| {
         let f: Vec<String> = flags.iter().map(|s| (*s).to_string()).collect();
-        t2::run_rva(&t2::RvaCall { sandbox: sbx, base, flags: &f, entropy: e, plan, profile: &spec.profile, force_color: false, cpu_seconds: 10, raw_base: None, stdout_fault: None, fifos: vec![] })
+        t2::run_rva(&t2::RvaCall { sandbox: sbx, base, flags: &f, entropy: e, plan, profile: &spec.profile, force_color: false, cpu_seconds: 10, raw_base: None, stdout_fault: None, fifos: vec![], arg_style: 0 })
     };
     let Ok(sj) = run(&["--json", "--all-files"], &spec.plan, &sb, &scn.world.base, e0) else {
         stats.inc("harness:spawn_failed");
